@@ -163,6 +163,11 @@ pub fn pipe(
     )
 }
 
+fn nettrace() -> bool {
+    static T: std::sync::OnceLock<bool> = std::sync::OnceLock::new();
+    *T.get_or_init(|| std::env::var("VERIF_NETTRACE").is_ok())
+}
+
 fn arm(sleep: &mut Option<Pin<Box<Sleep>>>, cx: &mut Context<'_>, at: Instant) -> Poll<()> {
     let mut s = Box::pin(tokio::time::sleep_until(at));
     match s.as_mut().poll(cx) {
@@ -284,6 +289,9 @@ impl AsyncRead for ReadEnd {
                 p.buffered -= take;
                 p.total_read += take as u64;
                 this.world.sig(0x5ead_0000 ^ take as u64);
+                if nettrace() {
+                    this.world.ev(format!("net {} read {} (buffered now {})", this.tag, take, p.buffered));
+                }
                 if let Some(w) = p.wr_waker.take() {
                     w.wake();
                 }
@@ -389,6 +397,9 @@ impl AsyncWrite for WriteEnd {
         p.buffered += n;
         p.total_written += n as u64;
         this.world.sig(0x3417_0000_0000 ^ n as u64 ^ (u64::from(lat) << 32));
+        if nettrace() {
+            this.world.ev(format!("net {} write {} of {} lat {} (buffered now {})", this.tag, n, buf.len(), lat, p.buffered));
+        }
         if let Some(w) = p.rd_waker.take() {
             w.wake();
         }
